@@ -16,8 +16,8 @@ from vlib.verdict import Case
 
 PROPERTY = 'C01'
 MANIFEST = {
- 'level_text': 'Lean 4 theorems about a model of Limnoria\'s capability gate, for all database states, callers, channels, plugin names and command paths: the prefix loop of _callCommand allows exactly when every one of its checks (Y, P, P.X, P.X.Y) allows (gate_allow_iff), and a plugin whose name does not lower-case to its canonical name is refused wholesale; a caller for whom -Y, -P, -P.X or -P.X.Y answers true, globally or scoped to the message\'s channel, never reaches the command (gate_forbidden, gate_forbidden_channel); a caller who is not a recognised non-ignored owner is refused every command of a plugin named Owner whenever -owner is a default capability, and the reply names owner (gate_antiowner, gate_antiowner_reply), same for any plugin P with -p among the defaults (gate_antiplugin, Admin instance); a wrapped command with owner/admin/checkCapability/checkCapabilityButIgnoreOwner/op/halfop/voice/checkChannelCapability at top level of its spec is reached only if that check answered true for the channel getChannel chose, whatever the other converters do (converter_guard*, chancap_first_channel, invoke_body_requires, owner_plugin_body_needs_owner, guarded_body_needs_capability); a caller ignored globally (ignore flag, ignores database, defaultIgnore) or by the recipient channel (ignore, ban, lobotomy) is dropped before anything is tokenised, trusted users never (ignored_silent, channel_ignored_silent, received_dispatch_requires, ...); Config writes pass only with owner, or #chan,op when every group on the path is op-settable, never for read-only names (config_write_guard); assigning supybot.capabilities always leaves -owner in and owner out (defaults_antiowner_not_owner); the lazily created channel record changes no decision (gate_touch). Kernel-checked. The command inventory (every bundled command with its wrap spec), the committed list of privileged commands, the call graph around _callCommand/Proxy, the mutators of the default capability set and the shape of the gate code are regenerated from /repo on every run and checked against committed obligations (required_present, required_rows_guarded, inventory_names_valid, plugin_names_canonical, callgraph_ok, defaults_mutators_ok, gate_shape_ok, shipped_defaults_ok). The model is tied to the code by a differential run on a live bot (real Irc, real plugins, production capability path, world.testing off): every command x caller role x addressing form x wrapper (incl. Aka, Alias, apply, let, cif, callers recognised by a password login that later times out / is dropped / whose hostmask is removed, scheduler replays fired by a virtual clock, also after the scheduling caller lost the capability), configuration writes, assignments of supybot.capabilities, ignore variants; the same run evaluates the property statement itself on the implementation (state snapshot unchanged, command body not run, at most one error reply, silence when ignored).',
- 'level_note': 'Trusted: Lean kernel; axioms propext/Classical.choice/Quot.sound only; harness/extractors/commands.py; the correspondence harness (role construction, database copy sent to the model, snapshot, reply classification, callCommand shim and body logging) and the C03 capability model it builds on (owned by C03; every gate decision here re-checks it against the real ircdb.checkCapability). Modelled and proved: checkCommandCapability, the _callCommand prefix loop, the capability converters + getChannel + the sequential spec driver, ircdb.checkIgnored / IgnoresDB.checkIgnored / IrcChannel.checkIgnored as used by PluginMixin.__call__ and Owner.doPrivmsg, Config.getCapability/isReadOnly/checkCanSetValue, DefaultCapabilities.setValue. Exercised only (not proved): the bodies of the ~500 commands; converters other than the capability ones (an arbitrary oracle in the theorems; assumed free of privileged side effects, which the snapshot comparison on refused calls would show); tokenising, addressing, nesting, alias expansion (they only produce the (prefix, channel, plugin, path, args) tuple the gate is a function of; C13/C14); threads; the flood guard of Owner.doPrivmsg (switched off). Not claimed: that every command which OUGHT to be privileged carries a converter (the committed list Required.lean states which do); Owner.defaultcapability can remove -owner from the defaults (owner-only, inventory obligation defaults_mutators_ok; C02). A prefix that is not nick!user@host is looked up as a user name (only a server can send one; exercised as role byname, sender recognition is C04).',
+ 'level_text': 'Lean 4 theorems about a model of Limnoria\'s capability gate, for all database states, callers, channels, plugin names and command paths: the prefix loop of _callCommand allows exactly when every one of its checks (Y, P, P.X, P.X.Y) allows (gate_allow_iff), and a plugin whose name does not lower-case to its canonical name is refused wholesale; a caller for whom -Y, -P, -P.X or -P.X.Y answers true, globally or scoped to the message\'s channel, never reaches the command (gate_forbidden, gate_forbidden_channel); a caller who is not a recognised non-ignored owner is refused every command of a plugin named Owner whenever -owner is a default capability, and the reply names owner (gate_antiowner, gate_antiowner_reply), same for any plugin P with -p among the defaults (gate_antiplugin, Admin instance); a wrapped command with owner/admin/checkCapability/checkCapabilityButIgnoreOwner/op/halfop/voice/checkChannelCapability at top level of its spec is reached only if that check answered true for the channel getChannel chose, whatever the other converters do (converter_guard*, chancap_first_channel, invoke_body_requires, owner_plugin_body_needs_owner, guarded_body_needs_capability); a caller ignored globally (ignore flag, ignores database, defaultIgnore) or by the recipient channel (ignore, ban, lobotomy) is dropped before anything is tokenised, trusted users never (ignored_silent, channel_ignored_silent, received_dispatch_requires, ...); Config writes pass only with owner, or #chan,op when every group on the path is op-settable, never for read-only names (config_write_guard); assigning supybot.capabilities always leaves -owner in and owner out (defaults_antiowner_not_owner); the lazily created channel record changes no decision (gate_touch); for EVERY database, also with inconsistent or garbage capability sets, checkCapability on a valid capability returns a boolean and the gate answers allow / denied / default-denied, never an assertion failure or escaping KeyError (checkCapability_total, gate_no_crash, inventory_names_plain); at every re-dispatch site (nested, piped, Aka, Alias, apply, let, cif, Network.command/cmdall) the gate is asked about the message being handled, for Scheduler add/repeat about the message stored by the scheduling caller (site_msg_is_current, site_msg_scheduled, scheduled_owner_command_refused), Admin.acmd dispatches nothing (it assigns to a tuple), and MessageParser asks about the SPEAKER of the matching line, not the user who stored the action — the full statement "a stored command is gated against whoever stored it" is false there, with a proved counter-example (trigger_runs_with_speakers_authority; known finding C01-trigger-runs-as-speaker, replayed on the live bot every run); the flood guard of Owner.doPrivmsg dispatches only unignored callers within the rate or trusted, and a punished caller is ignored while the entry lives (flood_dispatch_requires, flood_punishment_ignores). Kernel-checked. The command inventory (every bundled command with its wrap spec), the committed list of privileged commands, the call graph around _callCommand/Proxy, the mutators of the default capability set and the shape of the gate code are regenerated from /repo on every run and checked against committed obligations (required_present, required_rows_guarded, inventory_names_valid, plugin_names_canonical, callgraph_ok, defaults_mutators_ok, gate_shape_ok, shipped_defaults_ok). The model is tied to the code by a differential run on a live bot (real Irc, real plugins, production capability path, world.testing off): every command x caller role x addressing form x wrapper (incl. Aka, Alias, apply, let, cif, callers recognised by a password login that later times out / is dropped / whose hostmask is removed, scheduler replays fired by a virtual clock, also after the scheduling caller lost the capability), Network.command/cmdall, Scheduler.repeat (also after revocation), Admin.acmd, MessageParser triggers, configuration writes, assignments of supybot.capabilities, ignore variants, the flood guard switched on, reply/parsing configurations (generic no-capability reply, supybot.capabilities.private, whenNotCommand off, errors in private / as notices, strictRfc with a STATUSMSG target), and every converter registered in commands.wrappers run with hostile arguments for a caller who is then refused (no converter changes the snapshot); the (prefix, channel) the gate actually receives is observed at the entry of _callCommand in every scenario and compared with the site model; the same run evaluates the property statement itself on the implementation (state snapshot unchanged, command body not run, at most one error reply, silence when ignored).',
+ 'level_note': 'Trusted: Lean kernel; axioms propext/Classical.choice/Quot.sound only; harness/extractors/commands.py; the correspondence harness (role construction, database copy sent to the model, snapshot, reply classification, callCommand shim and body logging) and the C03 capability model it builds on (owned by C03; every gate decision here re-checks it against the real ircdb.checkCapability). Modelled and proved: checkCommandCapability, the _callCommand prefix loop, the capability converters + getChannel + the sequential spec driver, ircdb.checkIgnored / IgnoresDB.checkIgnored / IrcChannel.checkIgnored as used by PluginMixin.__call__ and Owner.doPrivmsg, Config.getCapability/isReadOnly/checkCanSetValue, DefaultCapabilities.setValue. Exercised only (not proved): the bodies of the ~500 commands; converters other than the capability ones (an arbitrary oracle in the theorems; assumed free of privileged side effects, which the snapshot comparison on refused calls would show); tokenising, addressing, nesting, alias expansion (they only produce the (prefix, channel, plugin, path, args) tuple the gate is a function of; C13/C14); threads. Not claimed: that every command which OUGHT to be privileged carries a converter (the committed list Required.lean states which do); Owner.defaultcapability can remove -owner from the defaults (owner-only, inventory obligation defaults_mutators_ok; C02). A prefix that is not nick!user@host used to be looked up as an account NAME (found here as role byname, reported to C04, repaired in /repo 926543e: Owner.doPrivmsg no longer dispatches such senders and checkCapability/checkIgnored treat them as unknown; modelled, bare_prefix_silent / bare_prefix_never_owner).',
  'technique': 'Lean 4 proof (case analysis over the decision procedure, induction over the check list / spec) + inventory extraction + differential correspondence on a live bot',
  'design_ref': 'DESIGN.md §6 C01',
 }
@@ -29,7 +29,7 @@ THEOREMS = [
  'C01.invoke_body_requires', 'C01.owner_plugin_body_needs_owner', 'C01.guarded_body_needs_capability',
  'C01.checkCapability_total', 'C01.checkName_no_crash', 'C01.gate_no_crash', 'C01.inventory_names_plain',
  'C01.site_msg_is_current', 'C01.site_msg_scheduled', 'C01.scheduled_owner_command_refused', 'C01.trigger_runs_with_speakers_authority',
- 'C01.ignored_silent', 'C01.dispatch_requires_not_ignored', 'C01.ignore_flag_ignored', 'C01.ignores_db_ignored',
+ 'C01.ignored_silent', 'C01.bare_prefix_silent', 'C01.bare_prefix_never_owner', 'C01.dispatch_requires_not_ignored', 'C01.ignore_flag_ignored', 'C01.ignores_db_ignored',
  'C01.channel_ignored_silent', 'C01.received_dispatch_requires', 'C01.channel_ban_ignored', 'C01.trusted_never_ignored',
  'C01.flood_dispatch_requires', 'C01.flood_punishment_ignores',
  'C01.config_write_guard', 'C01.readonly_never_written',
@@ -224,7 +224,7 @@ ROLES = {
     'ignoredb': 'igd!i@igd.host',
     'secure':   'sec!s@wrong.host',
     'anti':     'ant!a@anti.host',
-    'byname':   'vown',          # a prefix that is not nick!user@host is looked up as a user NAME (server-made prefixes)
+    'byname':   'vown',          # a prefix that is not nick!user@host (servers, services, gateways): was looked up as a user NAME before fix 926543e
 }
 
 DEFAULT_CAPS = []
@@ -487,7 +487,7 @@ def address(form, text):
 # the oracle's own notion of "lacks the capability" (by construction of the roles, not the model)
 # ------------------------------------------------------------------------------------------
 def role_holds(role, kind, cap, channel):
-    if role in ('owner', 'byname'):
+    if role == 'owner':
         return kind != 'capNoOwner'
     if role == 'admin':
         return kind == 'cap' and cap == 'admin'
@@ -602,9 +602,9 @@ def explore(ctx, b, w, table, required, n_extra):
     def expected_deny(plugin, path, spec, role, channel_of_check):
         """by construction of the roles: must this call be refused?  (None = no claim)"""
         reasons = []
-        if plugin == 'Owner' and role not in ('owner', 'byname'):
+        if plugin == 'Owner' and role != 'owner':
             reasons.append('Owner command, caller is not owner')
-        if plugin == 'Admin' and role not in ('owner', 'admin', 'byname'):
+        if plugin == 'Admin' and role not in ('owner', 'admin'):
             reasons.append('Admin command, caller is not admin')
         for kind, cap in req_by_row.get((plugin, path), []) + [(k, a) for k, a in (spec if plugin == 'VtGate' else []) if k in ('cap', 'capNoOwner', 'chancap')]:
             if not role_holds(role, kind, cap, channel_of_check):
@@ -750,7 +750,8 @@ def explore(ctx, b, w, table, required, n_extra):
                 reasons = ['the scheduling caller lost the owner capability before the event fired'] + reasons
                 if not expected_deny(plugin, path, sc.spec, 'plain', chk_chan):
                     reasons = []
-        silent = sc.role in ('ignored', 'ignoredb')
+        # `byname`: a prefix that is not nick!user@host (here: the NAME of the owner's account) is nobody and is not served
+        silent = sc.role in ('ignored', 'ignoredb', 'byname')
         sc.expect_deny = bool(reasons) and not silent
         sc.expect_silent = silent
         sc.why = '; '.join(reasons)
@@ -1243,8 +1244,8 @@ def explore(ctx, b, w, table, required, n_extra):
                 if who == 'registered-flooder':
                     uf = user_by_name(b, 'vreg'); uf.addHostmask('reg!r@flood2.host'); ircdb.users.setUser(uf)
                 for i in range(6):
-                    fake = b.ircmsgs.privmsg(CHAN, 'x', prefix=pr)
-                    queued = owner_cb.commands.len(fake) + 1
+                    fmsg = b.ircmsgs.privmsg(CHAN, 'x', prefix=pr)
+                    queued = owner_cb.commands.len(fmsg) + 1
                     last_dump[0] = None
                     send_db()
                     with contextlib.redirect_stdout(io.StringIO()):
@@ -1387,7 +1388,8 @@ def explore(ctx, b, w, table, required, n_extra):
                     rc, rcbs = route(cmd + args)
                     if not (len(rcbs) == 1 and rcbs[0].name() == plugin and list(rc) == cmd):
                         text, cmd, args = command_text(plugin, path, pargs, 'direct', True)
-                except Exception:
+                except Exception as ex:
+                    sys.stderr.write('login probe %s %s not routable: %r\n' % (plugin, path, ex))
                     continue
                 target, full, mchan = address(form, text)
                 spec, ae = row_spec(plugin, path, loaded[(plugin, path)])
